@@ -1397,6 +1397,13 @@ class Interp:
             return self.compare(st, op, a, b)
         base = op.replace('WithOverflow', '').replace('Unchecked', '')
         checked = op.endswith('WithOverflow')
+        if base == 'Sub' and b[0] == 'minof' and to_aff(a) is not None:
+            # a - min(a, c) == max(0, a - c)
+            for x, y in ((b[1], b[2]), (b[2], b[1])):
+                ax, ay = to_aff(x), to_aff(y)
+                if ax is not None and ay is not None and aff_add(to_aff(a), ax, -1) == ((), 0):
+                    res = ('satsub', aff_norm(aff_add(to_aff(a), ay, -1)))
+                    return ('tuple', (res, FALSE)) if checked else res
         if base in ('Add', 'Sub') and (a[0] == 'aff' or b[0] == 'aff') and to_aff(a) is not None and to_aff(b) is not None:
             res = aff_norm(aff_add(to_aff(a), to_aff(b), 1 if base == 'Add' else -1))
             return ('tuple', (res, ('boolu', ('ovf',)))) if checked else res
